@@ -370,12 +370,13 @@ func extractTagTokensFromComment(tok parser.Token) []semanticToken {
 		tagStart += searchStart
 
 		// Tag name with colon: "name:"
-		tagNameWithColonLen := uint32(len(name) + 1)
+		tagNameWithColonLen := uint32(lsputil.UTF16Len(name) + 1)
 
-		// +1 to baseCol accounts for the semicolon that starts the comment
+		// +1 to baseCol accounts for the semicolon that starts the comment;
+		// tagStart is a byte offset, token columns count UTF-16 units
 		tokens = append(tokens, semanticToken{
 			line:      baseLine,
-			col:       baseCol + 1 + uint32(tagStart),
+			col:       baseCol + 1 + uint32(lsputil.UTF16Len(commentText[:tagStart])),
 			length:    tagNameWithColonLen,
 			tokenType: TokenTypeTag,
 			modifiers: 0,
@@ -391,8 +392,8 @@ func extractTagTokensFromComment(tok parser.Token) []semanticToken {
 				if valueStart != -1 {
 					tokens = append(tokens, semanticToken{
 						line:      baseLine,
-						col:       baseCol + 1 + uint32(tagNameEnd+valueStart),
-						length:    uint32(len(value)),
+						col:       baseCol + 1 + uint32(lsputil.UTF16Len(commentText[:tagNameEnd+valueStart])),
+						length:    uint32(lsputil.UTF16Len(value)),
 						tokenType: TokenTypeTagValue,
 						modifiers: 0,
 					})
